@@ -338,6 +338,12 @@ func (r *c01Runner) one(k c01Case) {
 			return
 		}
 	}
+	// the failing COMMIT needs the real CLI (its external command works in the process's working directory)
+	for _, o := range k.Ops {
+		if o == "CF" && k.Seam != "cli" {
+			return
+		}
+	}
 	// a procedure with the multi-table DELETE is run under every single-range deviation of the map order: it is
 	// kept to procedures of at most 2 (3) statements before the ending, flat in the quick tier
 	for _, o := range k.Ops {
@@ -677,6 +683,10 @@ func c01Cli(c *core.Ctx, dir string, k c01Case) {
 	prog := k.build()
 	st := c01m.NewState()
 	out := c01m.Run(st, prog)
+	if out.Unjudged {
+		c.Add("cases_the_reference_does_not_define", 1)
+		return
+	}
 	k.SQL = c01m.SQL(prog)
 	j := &c01Judge{c: c, k: k, out: out, seen: map[string]bool{}}
 
